@@ -79,7 +79,7 @@ class BenchAst:
             body.append(f"{rng.choice(['OUTPUT', 'output'])}{sp()}({sp()}{o}{sp()})")
         for net, t, ins in self.gates:
             tt = t.upper() if rng.random() < 0.6 else t
-            sep = rng.choice([", ", ",", " , ", ",\t"]) if self.weird else ", "
+            sep = rng.choice([", ", ",", " , ", ",\t", ",\r\n ", ",\n\t", " ,\x0c", ",\x0b "]) if self.weird else ", "
             body.append(f"{net}{sp()}={sp()}{tt}({sp()}{sep.join(ins)}{sp()})")
         for q, d in self.dffs:
             body.append(f"{q}{sp()}={sp()}{rng.choice(['DFF', 'dff'])}({sp()}{d}{sp()})")
@@ -99,7 +99,9 @@ class BenchAst:
                     body.insert(k, comment())
                 else:
                     body[k] = body[k] + rng.choice(["", " ", "\t"]) + comment()
-        return "\n".join(lines + body) + rng.choice(["", "\n", "\n\n"])
+        # CRLF files (K54): the carriage return is white space everywhere, also inside an operand list that is wrapped
+        eol = "\r\n" if self.weird and rng.random() < 0.2 else "\n"
+        return eol.join(lines + body) + rng.choice(["", eol, eol + eol])
 
     def evaluate(self, assign):
         """values of every net given values for inputs and DFF outputs (q nets)"""
@@ -246,6 +248,11 @@ class P(Prop):
             if nonid and lost and lost <= set(nonid) and c2.inputs() <= c.inputs() and c2.outputs() <= c.outputs():
                 tag = ":non-identifier-name"
             self.fail("search", "bench-roundtrip-io" + tag, f"io changed: {sorted(c2.inputs())} {sorted(c2.outputs())}", case)
+            return
+        fr = [x for x in free_nodes(c) if x not in c.inputs()]
+        if fr:
+            # a circuit that was READ from text and has an undriven net the text does not declare (a mangled operand name)
+            self.fail("search", "bench-roundtrip-free-node" + tag, f"the circuit to write has undriven nets {sorted(fr)[:3]!r}", case)
             return
         for a in all_assignments(sorted(c.inputs())):
             v, w = simulate(c, a), simulate(c2, {**{x: False for x in free_nodes(c2)}, **a})
